@@ -127,6 +127,47 @@ CHECKS = {
         design="§4 C17",
         technique="Lean 4 proof + model/implementation correspondence",
     ),
+    "C16": dict(
+        text="Lean 4 theorems (22) over any linear order of labels: isLabeled_compl, isUnlabeled_iff_sentinel (NaN included) and the acceptance table of "
+        "check_missing_label, indices_enumerate / _2d (sorted resp. lexicographic, exactly the marked positions), classes_sorted, transform_range, "
+        "transform_monotone, transform_unseen_raises (on the repaired encoder), inverse_transform_roundtrip, inverse_out_of_range. Tie: dtype x sentinel x "
+        "shape x missing-pattern grid incl. the error enum against the real utilities and ExtLabelEncoder; labels reach the model as kind tags plus "
+        "order-preserving integer codes; thorough tier exhaustive for n<=3, m<=2.",
+        design="§4 C16",
+        technique="Lean 4 proof + model/implementation correspondence (exhaustive small scope in the thorough tier)",
+    ),
+    "C09": dict(
+        text="Lean 4 theorems on the encoding algebra: encode_monotone_invariant (every strictly increasing relabeling and any two sentinels give the identical "
+        "encoded array), isUnlabeled_invariant, decode_relabel, factors_through_encoding, predictions_reencoded, costMatrix_perm_invariant. That a given strategy or "
+        "classifier factors through the encoding is established by paired real runs under four encodings (189 configurations over 52 classes: all classifiers, pool, "
+        "stream and multi-annotator strategies), compared bit-exactly; recorded findings list the strategies that do not.",
+        design="§4 C09",
+        technique="Lean 4 proof (encoding algebra) + paired-encoding runs on the implementation",
+    ),
+    "C11": dict(
+        text="Lean 4 theorems (22): normalizeFreq_simplex / _uniform_of_zero (declared classes, no labels => uniform), ensemble hard/soft voting simplex, freq_nonneg, "
+        "remap_simplex / remap_columns for the scikit-learn wrapper incl. fallbacks, predict_min_cost / predict_most_probable (reusing C18), the three predict branches of "
+        "SklearnClassifier with the counterexample for the recorded sampling fallback. Tie: spy and real estimators on training sets with zero labels, one class, "
+        "unobserved classes, weights, cost matrices, priors; dyadic kernels so K*V is exact; property oracle on all six classifiers.",
+        design="§4 C11",
+        technique="Lean 4 proof + model/implementation correspondence with spy estimators",
+    ),
+    "C12": dict(
+        text="Lean 4 theorems (14): filterLabeled is invariant under inserting, deleting, moving and re-weighting unlabeled rows, hence every fit and prediction for every "
+        "estimator function (fit_unlabeled_irrelevant, fit_eq_fit_on_labeled_subset, reveal_order_irrelevant), per-wrapper instances (Sklearn classifier/regressors, "
+        "NIC, AnnotatorLogisticRegression on the repaired code), pwc_freq_labeled_only, label_counts_labeled_only. Tie: spy estimators recording exactly the "
+        "(X, y, sample_weight) they are fitted on; paired real fits with/without unlabeled rows compared bit-exactly.",
+        design="§4 C12",
+        technique="Lean 4 proof + spy-estimator correspondence",
+    ),
+    "C15": dict(
+        text="Lean 4 theorems (16): predict_is_mean / predict_parts, combine_pos / combine_scale_pos (posterior parameters positive, scale^2 >= 0), estimateMl_spec, "
+        "nic_std_finite_proper_prior, nadaraya_watson_std_finite, wrapper_delegates / wrapper_fallback_values, sample_shape; normal_fallback_partial with the "
+        "counterexample for the recorded zero-label-std finding. Tie: NIC / NadarayaWatson with dyadic precomputed kernels (posterior parameters bit-exact), predict vs "
+        "predict_target_distribution, sample_y shape and reproducibility, wrappers around estimators that fit or raise with 0/1/2 labels.",
+        design="§4 C15",
+        technique="Lean 4 proof + bit-exact model/implementation correspondence",
+    ),
 }
 
 NOT_YET = "check not built yet in this round (design in DESIGN.md §4); no claim is made"
